@@ -6,6 +6,7 @@ EXPLANATION = ("R-SLOT coverage: every waker's condition (queue, channels) is re
                "drain-before-Disconnected: Disconnected is reported only after observing zero senders and then (or under a held "
                "permit) finding the queue empty; R-PAIR the mpmc disconnect permit is sticky (a receiver that holds a permit and "
                "finds nothing re-posts it), the last sender wakes/posts, RAII Drop impls call drop_chan/drop_port, drop_port drains")
+EXPLANATION_2 = ("channel bookkeeping and spsc Blocker tag rules (see C06); the waiter taken out of a channel's slot is always unparked")
 NOT_DECIDED = "hang-freedom in general; exactly-once for values left in the channel (C03)"
 CONFIGS_QUICK = ["default"]
 
